@@ -15,6 +15,8 @@ package main
 //	                           of code path <path> (C commit, F flush, X close) attributed to workload line <op#>
 //	recover                    reopen the directory with the plain FS and dump everything
 //	close / reopen             clean close, reopen (C12), dump
+//	maint l0move|drain|keep    one synchronous compaction step through the real planner + executor
+//	                           (lsm/verif_lsm_hooks.go, background compactors stopped): contents must not change
 //	probe                      commit one more transaction and report its version against all stored versions
 import (
 	"fmt"
@@ -162,6 +164,11 @@ func parseOp(line string) (opSpec, error) {
 		if o.K, err = strconv.Atoi(f[3]); err != nil {
 			return o, err
 		}
+	case "maint":
+		if len(f) != 2 || (f[1] != "l0move" && f[1] != "drain" && f[1] != "keep") {
+			return o, fmt.Errorf("maint l0move|drain|keep")
+		}
+		o.Path = f[1]
 	case "wait":
 		if len(f) != 2 {
 			return o, fmt.Errorf("wait <ms>")
